@@ -11,7 +11,8 @@
 (*   pidread  json.loads(self.pidpath.read_text())    JExit    locks released, the process leaves                     *)
 (*   procopen psutil.Process(pid)                     JKilled  SIGKILL / OOM: no marker, pid file stays               *)
 (*   alive    p.aio_isrunning()                                                                                       *)
-(*   wait     await process.aio_code()                                                                                *)
+(*   wait     await process.aio_code()                LOpen    (another scheduler launches the job) pid file opened: empty  *)
+(*                                                    LWrite   ... and written                                             *)
 (*   done2    if job.donepath.exists()                                                                                *)
 (*                                                                                                                    *)
 (* Decisions: "done" (state DONE, nothing launched), "error" (adopted, ended without success marker: state ERROR,     *)
@@ -20,11 +21,14 @@ EXTENDS Naturals, Sequences, TLC, Json
 
 CONSTANTS Outcomes,      \* how the orphan ends: subset of {"ok", "fail", "killed"}
           SecondCheck,   \* TRUE: the success marker is looked at again after the process look-up (the code as it is)
-          GuardedRead    \* TRUE: a pid file that disappears between is_file() and read_text() means "no process"
+          GuardedRead,   \* TRUE: a pid file that disappears between is_file() and read_text(), or is still empty, means "no process"
+          Launching      \* TRUE: the job may also be in the hands of another scheduler that is launching it (pid file being written)
 
-VARIABLES jpc,       \* "run" (in its body) | "marked" | "unpid" | "gone"
+VARIABLES jpc,       \* "spawned" | "pidopen" (being launched by another scheduler) | "run" (in its body) | "marked" | "unpid" | "gone"
           outcome,   \* chosen at the start, revealed by the job's steps
-          done, failed, pidf,   \* the three files of the job directory
+          done, failed,         \* the marker files of the job directory
+          pidf,                 \* the pid file: "absent" | "empty" (opened for writing, nothing written yet) | "written"
+          sawempty,             \* the scheduler read the pid file while it was empty
           alive,     \* the process table
           spc,       \* next access of the scheduler
           found,     \* aio_process() returned a process
@@ -32,15 +36,18 @@ VARIABLES jpc,       \* "run" (in its body) | "marked" | "unpid" | "gone"
           decision,  \* "none" until the scheduler has decided
           hist       \* labels of the steps taken (export of behaviours; not read by any action)
 
-vars == <<jpc, outcome, done, failed, pidf, alive, spc, found, noted, decision, hist>>
+vars == <<jpc, outcome, done, failed, pidf, sawempty, alive, spc, found, noted, decision, hist>>
 
 Init ==
   /\ outcome \in Outcomes
-  /\ jpc \in {"run", "gone"}          \* "gone": the job had already ended when the experiment was run again
-  /\ \/ jpc = "run" /\ done = FALSE /\ failed = FALSE /\ pidf = TRUE /\ alive = TRUE
-     \/ jpc = "gone" /\ outcome = "ok" /\ done = TRUE /\ failed = FALSE /\ pidf = FALSE /\ alive = FALSE
-     \/ jpc = "gone" /\ outcome = "fail" /\ done = FALSE /\ failed = TRUE /\ pidf = FALSE /\ alive = FALSE
-     \/ jpc = "gone" /\ outcome = "killed" /\ done = FALSE /\ failed = FALSE /\ pidf = TRUE /\ alive = FALSE
+  /\ jpc \in {"run", "gone"} \cup (IF Launching THEN {"spawned"} ELSE {})
+          \* "gone": the job had already ended when the experiment was run again; "spawned": another scheduler is launching it
+  /\ \/ jpc = "run" /\ done = FALSE /\ failed = FALSE /\ pidf = "written" /\ alive = TRUE
+     \/ jpc = "spawned" /\ done = FALSE /\ failed = FALSE /\ pidf = "absent" /\ alive = TRUE
+     \/ jpc = "gone" /\ outcome = "ok" /\ done = TRUE /\ failed = FALSE /\ pidf = "absent" /\ alive = FALSE
+     \/ jpc = "gone" /\ outcome = "fail" /\ done = FALSE /\ failed = TRUE /\ pidf = "absent" /\ alive = FALSE
+     \/ jpc = "gone" /\ outcome = "killed" /\ done = FALSE /\ failed = FALSE /\ pidf = "written" /\ alive = FALSE
+  /\ sawempty = FALSE
   /\ spc = "done1" /\ found = FALSE /\ noted = FALSE /\ decision = "none" /\ hist = <<jpc>>
 
 Log(l) == hist' = Append(hist, l)
@@ -50,48 +57,60 @@ JMark ==
   /\ jpc = "run" /\ outcome \in {"ok", "fail"}
   /\ jpc' = "marked"
   /\ done' = (outcome = "ok") /\ failed' = (outcome = "fail")
-  /\ Log("JMark") /\ UNCHANGED <<outcome, pidf, alive, spc, found, noted, decision>>
+  /\ Log("JMark") /\ UNCHANGED <<outcome, pidf, sawempty, alive, spc, found, noted, decision>>
 JUnpid ==
-  /\ jpc = "marked" /\ jpc' = "unpid" /\ pidf' = FALSE
-  /\ Log("JUnpid") /\ UNCHANGED <<outcome, done, failed, alive, spc, found, noted, decision>>
+  /\ jpc = "marked" /\ jpc' = "unpid" /\ pidf' = "absent"
+  /\ Log("JUnpid") /\ UNCHANGED <<outcome, done, failed, sawempty, alive, spc, found, noted, decision>>
 JExit ==
   /\ jpc = "unpid" /\ jpc' = "gone" /\ alive' = FALSE
-  /\ Log("JExit") /\ UNCHANGED <<outcome, done, failed, pidf, spc, found, noted, decision>>
+  /\ Log("JExit") /\ UNCHANGED <<outcome, done, failed, pidf, sawempty, spc, found, noted, decision>>
 JKilled ==
   /\ jpc = "run" /\ outcome = "killed" /\ jpc' = "gone" /\ alive' = FALSE
-  /\ Log("JKilled") /\ UNCHANGED <<outcome, done, failed, pidf, spc, found, noted, decision>>
+  /\ Log("JKilled") /\ UNCHANGED <<outcome, done, failed, pidf, sawempty, spc, found, noted, decision>>
+(* the other scheduler, inside its launch block (job lock held): open(pid file, "w"), json.dump, close *)
+LOpen ==
+  /\ jpc = "spawned" /\ jpc' = "pidopen" /\ pidf' = "empty"
+  /\ Log("LOpen") /\ UNCHANGED <<outcome, done, failed, sawempty, alive, spc, found, noted, decision>>
+LWrite ==
+  /\ jpc = "pidopen" /\ jpc' = "run" /\ pidf' = "written"
+  /\ Log("LWrite") /\ UNCHANGED <<outcome, done, failed, sawempty, alive, spc, found, noted, decision>>
 
 (* ---- the scheduler of the new run *)
 Goto(l) == spc' = l /\ UNCHANGED <<found, noted, decision>>
 Decide(d) == spc' = "end" /\ decision' = d /\ UNCHANGED <<found, noted>>
 Quiet == UNCHANGED <<jpc, outcome, done, failed, pidf, alive>>
+Seen == UNCHANGED sawempty
 Final == IF done THEN Decide("done") ELSE IF found THEN Decide("error") ELSE Decide("launch")
 
-SDone1 == spc = "done1" /\ Log("done?") /\ Quiet /\ spc' = "pidfile" /\ noted' = done /\ UNCHANGED <<found, decision>>
+SDone1 == spc = "done1" /\ Log("done?") /\ Quiet /\ Seen /\ spc' = "pidfile" /\ noted' = done /\ UNCHANGED <<found, decision>>
           \* (DONE is only noted here: the look-up of the process follows in any case)
-SPidFile == spc = "pidfile" /\ Log("pidfile?") /\ Quiet /\ IF pidf THEN Goto("pidread") ELSE Goto("done2")
-SPidRead == spc = "pidread" /\ Log("pidread") /\ Quiet
-            /\ IF pidf THEN Goto("procopen") ELSE IF GuardedRead THEN Goto("done2") ELSE Decide("crash")
-SProcOpen == spc = "procopen" /\ Log("procopen") /\ Quiet /\ IF alive THEN Goto("alive") ELSE Goto("done2")
-SAlive == spc = "alive" /\ Log("alive?") /\ Quiet
+SPidFile == spc = "pidfile" /\ Log("pidfile?") /\ Quiet /\ Seen /\ IF pidf # "absent" THEN Goto("pidread") ELSE Goto("done2")
+SPidRead == spc = "pidread" /\ Log("pidread") /\ Quiet /\ sawempty' = (sawempty \/ pidf = "empty")
+            /\ IF pidf = "written" THEN Goto("procopen") ELSE IF GuardedRead THEN Goto("done2") ELSE Decide("crash")
+               \* (absent: FileNotFoundError; empty: json.JSONDecodeError)
+SProcOpen == spc = "procopen" /\ Log("procopen") /\ Quiet /\ Seen /\ IF alive THEN Goto("alive") ELSE Goto("done2")
+SAlive == spc = "alive" /\ Log("alive?") /\ Quiet /\ Seen
           /\ IF alive THEN spc' = "wait" /\ found' = TRUE /\ UNCHANGED <<noted, decision>> ELSE Goto("done2")
-SWait == spc = "wait" /\ ~alive /\ Log("waited") /\ Quiet /\ Goto("done2")
-SDone2 == spc = "done2" /\ Quiet
+SWait == spc = "wait" /\ ~alive /\ Log("waited") /\ Quiet /\ Seen /\ Goto("done2")
+SDone2 == spc = "done2" /\ Quiet /\ Seen
           /\ IF SecondCheck THEN Log("done?") /\ Final
              ELSE UNCHANGED hist /\ (IF found THEN Final ELSE IF noted THEN Decide("done") ELSE Decide("launch"))
                   \* (deviation for the demonstration: the marker only tells the result of an adopted process)
 
 Ended == spc = "end" /\ jpc = "gone" /\ UNCHANGED vars
 
-Next == JMark \/ JUnpid \/ JExit \/ JKilled \/ SDone1 \/ SPidFile \/ SPidRead \/ SProcOpen \/ SAlive \/ SWait \/ SDone2 \/ Ended
+Next == LOpen \/ LWrite \/ JMark \/ JUnpid \/ JExit \/ JKilled \/ SDone1 \/ SPidFile \/ SPidRead \/ SProcOpen \/ SAlive \/ SWait \/ SDone2 \/ Ended
 Spec == Init /\ [][Next]_vars
 
 (* ---- what the user relies on (C11: adopted rather than relaunched, finished ones not repeated; C05: a job whose      *)
 (*      success marker exists is never launched again)                                                                *)
-TypeOK == /\ jpc \in {"run", "marked", "unpid", "gone"} /\ decision \in {"none", "done", "error", "launch", "crash"}
+TypeOK == /\ jpc \in {"spawned", "pidopen", "run", "marked", "unpid", "gone"} /\ pidf \in {"absent", "empty", "written"} /\ decision \in {"none", "done", "error", "launch", "crash"}
           /\ spc \in {"done1", "pidfile", "pidread", "procopen", "alive", "wait", "done2", "end"}
-NoRelaunchOfSuccess == decision = "launch" => ~done
-NoRelaunchOfRunning == decision = "launch" => jpc # "run"
+Decides(d) == decision = "none" /\ decision' = d
+NoRelaunchOfSuccess == [][Decides("launch") => ~done']_vars
+NoRelaunchOfRunning == [][Decides("launch") => (jpc' # "run" \/ sawempty' \/ hist[1] = "spawned")]_vars
+   \* (the corner left open: a job that another scheduler was launching at that very moment -- its pid file absent or empty
+   \*  when looked at -- is launched a second time; the second script waits for the run lock and finds the success marker)
 TruthfulDone == decision = "done" => done /\ outcome = "ok"
 TruthfulError == decision = "error" => ~done /\ jpc = "gone"
 NoCrash == decision # "crash"
